@@ -1,5 +1,5 @@
 # replay of a bounded stand-in violation (C19)
 import sys
-print('subgraph.resize([2], edges=[(0, 1)], 1, 3, node_select=uniform) can return [((1, (2,)), (2, (np.int64(0), 2)), (3, (np.int64(0), np.int64(1), 2))), ((1, (2,)), (2, (np.int64(0), 2)), (3, (np.int64(0), 2, np.int64(3)))), ((1, (2,)), (2, (np.int64(1), 2)), (3, (np.int64(0), np.int64(1), 2)))], documented rule allows [((1, (2,)), (2, (0, 2)), (3, (0, 1, 2))), ((1, (2,)), (2, (1, 2)), (3, (0, 1, 2))), ((1, (2,)), (2, (2, 3)), (3, (0, 2, 3)))]')
+print('clique.search([], edges=[], iterations=1, node_select=[np.float64(0.5), np.float64(2.5), np.float64(1.5)]) can return [(0,), (2,)], the documented phases allow [(2,)]')
 print('REPLAY-VIOLATION (re-run native/c19_apps.py to reproduce)')
 sys.exit(1)
